@@ -134,7 +134,7 @@ pub fn points(seed: u64, tier: Tier) -> Vec<B32> {
 
 fn dry_mult(n: &B32, p: &B32) -> Result<B32, String> {
     guarded(AssertUnwindSafe(|| {
-        let mut q = [0u8; 32];
+        let mut q = [0xC3u8; 32];
         crypto_scalarmult(&mut q, n, p);
         q
     }))
@@ -180,7 +180,7 @@ pub fn replay(case: &Value) -> Option<String> {
             let pk: B32 = unhx(&case["peer_pk"]).try_into().unwrap();
             let sk: B32 = unhx(&case["sk"]).try_into().unwrap();
             let mypk = sodium::scalarmult_base(&sk);
-            let (mut rx, mut tx) = ([0u8; 32], [0u8; 32]);
+            let (mut rx, mut tx) = ([0xC3u8; 32], [0xC3u8; 32]);
             let a = crypto_kx_client_session_keys(&mut rx, &mut tx, &mypk, &sk, &pk).is_ok();
             let b = crypto_kx_server_session_keys(&mut rx, &mut tx, &mypk, &sk, &pk).is_ok();
             if a || b {
@@ -193,9 +193,9 @@ pub fn replay(case: &Value) -> Option<String> {
             let peer: B32 = unhx(&case["peer_pk"]).try_into().unwrap();
             let sk: B32 = unhx(&case["sk"]).try_into().unwrap();
             let pk = sodium::scalarmult_base(&sk);
-            let (mut rx, mut tx) = ([0u8; 32], [0u8; 32]);
+            let (mut rx, mut tx) = ([0xC3u8; 32], [0xC3u8; 32]);
             let c = crypto_kx_client_session_keys(&mut rx, &mut tx, &pk, &sk, &peer).ok().map(|_| (rx, tx));
-            let (mut rx2, mut tx2) = ([0u8; 32], [0u8; 32]);
+            let (mut rx2, mut tx2) = ([0xC3u8; 32], [0xC3u8; 32]);
             let s = crypto_kx_server_session_keys(&mut rx2, &mut tx2, &pk, &sk, &peer).ok().map(|_| (rx2, tx2));
             if c == sodium::kx_client(&pk, &sk, &peer) && s == sodium::kx_server(&pk, &sk, &peer) {
                 None
@@ -228,7 +228,7 @@ pub fn run() -> i32 {
         let n = &ss[si];
         // base point
         let want_b = sodium::scalarmult_base(n);
-        let mut got_b = [0u8; 32];
+        let mut got_b = [0xC3u8; 32];
         crypto_scalarmult_base(&mut got_b, n);
         st.eval(&("base", si), true, if got_b == want_b { "base==libsodium" } else { "base-differs" });
         if got_b != want_b {
@@ -300,7 +300,7 @@ pub fn run() -> i32 {
             st.fail(Fail { check: "C05.x25519".into(), signature: "C05/dh/not-commutative".into(), what: format!("X25519(a, B) != X25519(b, A) for sk a={} b={}", hx(ska), hx(skb)), case: json!({"kind": "mult", "n": hx(ska), "p": hx(&pkb)}) });
         }
         // kx: a = client, b = server
-        let (mut crx, mut ctx_, mut srx, mut stx) = ([0u8; 32], [0u8; 32], [0u8; 32], [0u8; 32]);
+        let (mut crx, mut ctx_, mut srx, mut stx) = ([0xC3u8; 32], [0xC3u8; 32], [0xC3u8; 32], [0xC3u8; 32]);
         let rc = crypto_kx_client_session_keys(&mut crx, &mut ctx_, &pka, ska, &pkb);
         let rs = crypto_kx_server_session_keys(&mut srx, &mut stx, &pkb, skb, &pka);
         let so_c = sodium::kx_client(&pka, ska, &pkb);
@@ -333,7 +333,7 @@ pub fn run() -> i32 {
         // low-order peers must be refused (b indexes the table)
         if b < lo.len() {
             let peer = &lo[b];
-            let (mut rx, mut tx) = ([0u8; 32], [0u8; 32]);
+            let (mut rx, mut tx) = ([0xC3u8; 32], [0xC3u8; 32]);
             let c = guarded(AssertUnwindSafe(|| crypto_kx_client_session_keys(&mut rx, &mut tx, &pka, ska, peer).is_ok())).unwrap_or(true);
             let s = guarded(AssertUnwindSafe(|| crypto_kx_server_session_keys(&mut rx, &mut tx, &pka, ska, peer).is_ok())).unwrap_or(true);
             let peer_sb: StackByteArray<32> = (*peer).into();
@@ -367,9 +367,9 @@ pub fn run() -> i32 {
         for ski in 0..3usize {
             let sk = &sks[ski];
             let pk = sodium::scalarmult_base(sk);
-            let (mut rx, mut tx) = ([0u8; 32], [0u8; 32]);
+            let (mut rx, mut tx) = ([0xC3u8; 32], [0xC3u8; 32]);
             let c = guarded(AssertUnwindSafe(|| crypto_kx_client_session_keys(&mut rx, &mut tx, &pk, sk, peer).ok().map(|_| (rx, tx))));
-            let (mut rx2, mut tx2) = ([0u8; 32], [0u8; 32]);
+            let (mut rx2, mut tx2) = ([0xC3u8; 32], [0xC3u8; 32]);
             let s = guarded(AssertUnwindSafe(|| crypto_kx_server_session_keys(&mut rx2, &mut tx2, &pk, sk, peer).ok().map(|_| (rx2, tx2))));
             let ok = c == Ok(sodium::kx_client(&pk, sk, peer)) && s == Ok(sodium::kx_server(&pk, sk, peer));
             st.eval(&("kx-peer", pi, ski), true, if ok { "kx(arbitrary peer)==libsodium" } else { "kx(arbitrary peer)-differs" });
@@ -397,9 +397,9 @@ pub fn run() -> i32 {
                 let n = c * 256 + i;
                 let (pk, sk) = kp(n);
                 for (what, peer) in [("next", kp(n ^ 1).0), ("self", pk)] {
-                    let (mut rx, mut tx) = ([0u8; 32], [0u8; 32]);
+                    let (mut rx, mut tx) = ([0xC3u8; 32], [0xC3u8; 32]);
                     let cl = guarded(AssertUnwindSafe(|| crypto_kx_client_session_keys(&mut rx, &mut tx, &pk, &sk, &peer).ok().map(|_| (rx, tx))));
-                    let (mut rx2, mut tx2) = ([0u8; 32], [0u8; 32]);
+                    let (mut rx2, mut tx2) = ([0xC3u8; 32], [0xC3u8; 32]);
                     let sv = guarded(AssertUnwindSafe(|| crypto_kx_server_session_keys(&mut rx2, &mut tx2, &pk, &sk, &peer).ok().map(|_| (rx2, tx2))));
                     let bn = guarded(AssertUnwindSafe(|| dryoc::classic::crypto_box::crypto_box_beforenm(&peer, &sk)));
                     let ok = cl == Ok(sodium::kx_client(&pk, &sk, &peer)) && sv == Ok(sodium::kx_server(&pk, &sk, &peer)) && bn.ok() == sodium::box_beforenm(&peer, &sk);
@@ -423,29 +423,29 @@ pub fn run() -> i32 {
             t.push((nm, Box::new(move || dry_mult(&sk, &pk).map(|x| x.to_vec()).unwrap_or_default())));
         }
         t.push(("scalarmult_base(a)", Box::new(move || {
-            let mut q = [0u8; 32];
+            let mut q = [0xC3u8; 32];
             crypto_scalarmult_base(&mut q, &a);
             q.to_vec()
         })));
         t.push(("scalarmult_base(b)", Box::new(move || {
-            let mut q = [0u8; 32];
+            let mut q = [0xC3u8; 32];
             crypto_scalarmult_base(&mut q, &b);
             q.to_vec()
         })));
         t.push(("beforenm(B,a)", Box::new(move || crypto_box_beforenm(&pb, &a).to_vec())));
         t.push(("beforenm(A,b)", Box::new(move || crypto_box_beforenm(&pa, &b).to_vec())));
         t.push(("kx_client(a;B)", Box::new(move || {
-            let (mut rx, mut tx) = ([0u8; 32], [0u8; 32]);
+            let (mut rx, mut tx) = ([0xC3u8; 32], [0xC3u8; 32]);
             let _ = crypto_kx_client_session_keys(&mut rx, &mut tx, &pa, &a, &pb);
             [rx, tx].concat()
         })));
         t.push(("kx_server(b;A)", Box::new(move || {
-            let (mut rx, mut tx) = ([0u8; 32], [0u8; 32]);
+            let (mut rx, mut tx) = ([0xC3u8; 32], [0xC3u8; 32]);
             let _ = crypto_kx_server_session_keys(&mut rx, &mut tx, &pb, &b, &pa);
             [rx, tx].concat()
         })));
         t.push(("kx_client(b;A)", Box::new(move || {
-            let (mut rx, mut tx) = ([0u8; 32], [0u8; 32]);
+            let (mut rx, mut tx) = ([0xC3u8; 32], [0xC3u8; 32]);
             let _ = crypto_kx_client_session_keys(&mut rx, &mut tx, &pb, &b, &pa);
             [rx, tx].concat()
         })));
